@@ -97,6 +97,9 @@ class C18(Prop):
                 elif want == 'after_other':
                     # the data source first serves a DIFFERENT (later, overlapping or disjoint) session
                     shift = rng.choice([3, 10, 25, 60, -10, -25, -60]) * DAY
+                    late_variant = cfg.get('lookbacks') is None and (csv_seen // len(order)) % 2 == 0
+                    if late_variant:
+                        shift = abs(shift) if abs(shift) >= 10 * DAY else 10 * DAY
                     other = dict(cfg, start=cfg['start'] + shift, end=cfg['end'] + shift)
                     if other.get('burn') is not None:
                         other['burn'] = other['burn'] + shift
@@ -108,7 +111,17 @@ class C18(Prop):
                     c['market'] = csv_market(rng, c['assets'], lo, hi, c['exact'])
                     c['mode'] = 'after_other'
                     c['stream'] += ':reused'
-                    if rng.random() < 0.5:
+                    if late_variant:
+                        # one asset is listed a few days into this session (its file begins there): before that nobody has a
+                        # price for it - also not a data HANDLER that priced it while serving the later session first
+                        late_a = rng.choice(sorted(c['market']['assets']))
+                        first_day = cfg['start'] // DAY + rng.randint(2, 8)
+                        rows_ = c['market']['assets'][late_a]
+                        c['market'] = dict(c['market'], assets=dict(c['market']['assets'], **{late_a: [r for r in rows_ if r[0] >= first_day] or rows_[-1:]}))
+                        c['share_handler'] = True
+                        c['no_model'] = True
+                        c['stream'] += ':late-listed-asset'
+                    elif rng.random() < 0.5:
                         # a second vendor with a longer history and different quotes behind a primary one whose files begin
                         # with the session; the same data HANDLER (not only its sources) first serves the other session
                         backup = csv_market(rng, c['assets'], lo, hi, c['exact'])['assets']
@@ -168,7 +181,8 @@ class C18(Prop):
         if c['market']['kind'] == 'csv':
             c2 = dict(c)
             c2['market'] = {'kind': 'table', 'rows': table_of_csv(c)}
-        sl.compare_session(c2, a, mod, j)
+        if not c.get('no_model'):
+            sl.compare_session(c2, a, mod, j)
         da, db = sl.digest(a), sl.digest(b)
         for key in ('init', 'equity', 'fills', 'history', 'allocs', 'error'):
             if da.get(key) != db.get(key):
